@@ -244,7 +244,14 @@ func (r *poolRun) opDeposit(cn string) {
 	}
 	n, h := b.NextEvent()
 	before := r.snapshot()
-	if !r.quorum(cn, b.SendToFxClaim(n, h, t.Ext[cn], amt, u.Hex(), u.Acc(), target), "deposit") {
+	claim := b.SendToFxClaim(n, h, t.Ext[cn], amt, u.Hex(), u.Acc(), target)
+	viaCall := r.rng.IntN(4) == 0
+	if viaCall {
+		// the same deposit made as an inbound bridge call that carries the tokens to an ordinary account
+		claim = b.BridgeCallClaim(n, h, fix.BridgeCallIn{Sender: r.c.Users[3].Hex(), Refund: u.Hex(), To: u.Hex(), TxOrigin: r.c.Users[3].Hex(),
+			Tokens: []common.Address{t.Ext[cn]}, Amounts: []sdkmath.Int{amt}})
+	}
+	if !r.quorum(cn, claim, "deposit") {
 		r.sync(cn, "deposit-blocked", observeAllow...)
 		return
 	}
@@ -252,7 +259,7 @@ func (r *poolRun) opDeposit(cn string) {
 	r.afterObservation(cn, fmt.Sprintf("deposit-observed %s n=%d", t.Symbol, n), before)
 	before = r.snapshot()
 	er := b.ExecuteClaim(r.c.Users[3], n)
-	op := fmt.Sprintf("deposit-execute %s %s to %s target=%q -> %s", cn, amt, u.Label, target, short(er.VmError()))
+	op := fmt.Sprintf("deposit-execute %s %s to %s target=%q bridge-call=%v -> %s", cn, amt, u.Label, target, viaCall, short(er.VmError()))
 	r.logf(op)
 	if er.Failed() {
 		r.expectDeltas(op, before, nil)
@@ -263,6 +270,18 @@ func (r *poolRun) opDeposit(cn string) {
 		r.expectDeltas(op, before, []delta{{t.Base, u.Label, amt}})
 	}
 	r.sync(cn, op)
+	if !er.Failed() && r.c04 {
+		// an event is credited once: executing the same event again must be refused and move nothing
+		before = r.snapshot()
+		er2 := b.ExecuteClaim(r.c.Users[3], n)
+		op2 := fmt.Sprintf("deposit-execute-again %s n=%d (bridge call: %v) -> ok=%v", cn, n, viaCall, !er2.Failed())
+		if !er2.Failed() {
+			r.res.Violate("C04/deposit-executed-twice", "%s: the second execution of an already executed deposit event succeeded", op2)
+		}
+		r.expectDeltas(op2, before, nil)
+		r.sync(cn, op2)
+		r.res.Count("repeated_executions_refused", 1)
+	}
 }
 
 // afterObservation: measure what the timeout clean-up inside the observing vote did.
